@@ -94,6 +94,7 @@ type modEntry struct {
 
 // FG generates the verification conditions of one function.
 type FG struct {
+	merges map[int]*mergeInfo
 	copyOut map[ssa.Value]copyOutInfo
 	g       *Gen
 	fn      *ssa.Function
